@@ -240,3 +240,58 @@ def reraises_on_all_paths(ctx, fi, h: ast.ExceptHandler, kinds="nx") -> Optional
                         continue  # exceptional transfer out of the handler
                     return path + [b]
     return None
+
+
+def call_chain(ctx, root, target_qual, stop=()):
+    """Shortest call chain root -> target (list of quals) in the internal call graph, or None."""
+    from collections import deque
+    prev = {root.qual: None}
+    dq = deque([root])
+    stop = set(stop)
+    while dq:
+        f = dq.popleft()
+        if f.qual == target_qual:
+            out = []
+            q = f.qual
+            while q is not None:
+                out.append(q)
+                q = prev[q]
+            return list(reversed(out))
+        nxt = [t for (_, tg, _) in ctx.calls.callees(f) for t in tg] + list(f.nested.values())
+        for t in nxt:
+            if t.qual not in prev and t.qual not in stop:
+                prev[t.qual] = f.qual
+                dq.append(t)
+    return None
+
+
+MUTATING_KINDS = ("rename", "delete", "mkdir", "link", "meta", "write", "open-write", "docmut")
+
+
+def stmts_containing_call_to(ctx, fi, quals=(), attrs=(), exts=()):
+    """Statements (CFG node ASTs) of fi whose own expressions contain a call resolving to one of quals / named attr / ext."""
+    out = []
+    cfg = ctx.cfg(fi)
+    seen = set()
+    for n in body_nodes(fi):
+        if not isinstance(n, ast.Call):
+            continue
+        tg, ext = ctx.calls.resolve_call(fi, n)
+        hit = any(t.qual in quals for t in tg) or (ext in exts if ext else False)
+        if not hit and attrs:
+            nm = n.func.attr if isinstance(n.func, ast.Attribute) else (n.func.id if isinstance(n.func, ast.Name) else None)
+            hit = nm in attrs
+        if hit:
+            st = ctx.stmt_of(fi, n)
+            if id(st) not in seen:
+                seen.add(id(st))
+                out.append((st, n))
+    return out
+
+
+def ids_of(ctx, fi, stmts):
+    cfg = ctx.cfg(fi)
+    s = set()
+    for st in stmts:
+        s.update(cfg.node_ids_for(st))
+    return s
